@@ -108,12 +108,88 @@ class NTRX {
   }
 };
 
+/// Move-only NTRX: copy construction / assignment deleted, move construction and move assignment are fault points.
+/// The value category for which "move if noexcept, else copy" policies have no copy to fall back to.
+class NTRXMO {
+ public:
+  int v;
+  int moved;
+  const NTRXMO *self;
+
+  NTRXMO() : v(0), moved(0), self(this) {
+    vf::event(1);
+    ++vf::L().n_def_ctor;
+    vf::addr_born(this);
+  }
+  NTRXMO(int x) : v(x), moved(0), self(this) {
+    vf::event(2);
+    ++vf::L().n_val_ctor;
+    vf::addr_born(this);
+  }
+  NTRXMO(const NTRXMO &) = delete;
+  NTRXMO &operator=(const NTRXMO &) = delete;
+  NTRXMO(NTRXMO &&o) noexcept(false) : v(o.v), moved(o.moved), self(this) {
+    o.check("move-construct from");
+    vf::event(5);  // throws before anything is registered or the source is modified
+    ++vf::L().n_move_ctor;
+    vf::addr_born(this);
+    o.moved = 1;
+    o.v = -777;
+  }
+  NTRXMO &operator=(NTRXMO &&o) noexcept(false) {
+    o.check("move-assign from");
+    check("move-assign to");
+    vf::event(6);
+    ++vf::L().n_move_asg;
+    if (this != &o) {
+      v = o.v;
+      moved = o.moved;
+      o.moved = 1;
+      o.v = -777;
+    }
+    return *this;
+  }
+  ~NTRXMO() {
+    ++vf::L().n_dtor;
+    if (self != this)
+      vf::fail("C15", "NTRXMO destroyed at %p but self=%p (moved by raw byte copy)", (const void *)this, (const void *)self);
+    vf::addr_dead(this);
+  }
+  void check(const char *what) const {
+    if (!vf::addr_alive(this)) vf::fail("C15", "NTRXMO %s an object outside its lifetime at %p", what, (const void *)this);
+    else if (self != this) vf::fail("C15", "NTRXMO %s an object whose self pointer is stale (raw byte copy)", what);
+  }
+};
+
+/// Trivially default constructible but NOT trivial: `TDCA() = default` with user-provided copy operations.  Value
+/// construction must zero-initialise it with placement new; a std::fill shortcut would run operator= on raw storage.
+/// The copy operations count themselves in the ledger (n_copy_ctor / n_copy_asg); nothing else is tracked.
+struct TDCA {
+  int v;
+  int w;
+  TDCA() = default;
+  TDCA(int x) : v(x), w(0) {}
+  TDCA(const TDCA &o) : v(o.v), w(o.w) { ++vf::L().n_copy_ctor; }
+  TDCA &operator=(const TDCA &o) {
+    ++vf::L().n_copy_asg;
+    v = o.v;
+    w = o.w;
+    return *this;
+  }
+};
+
 // The branches of memory.hpp we mean to reach depend on these facts; fail the build rather than test the wrong thing.
 static_assert(std::is_trivial<TC4>::value, "TC4 must be trivial");
 static_assert(std::is_trivially_copyable<TCN>::value && !std::is_trivially_default_constructible<TCN>::value, "TCN");
 static_assert(!std::is_trivially_copyable<TR>::value && amc::is_trivially_relocatable<TR>::value, "TR");
 static_assert(!amc::is_trivially_relocatable<NTR>::value && std::is_nothrow_move_constructible<NTR>::value, "NTR");
 static_assert(!amc::is_trivially_relocatable<NTRX>::value && !std::is_nothrow_move_constructible<NTRX>::value, "NTRX");
+static_assert(!amc::is_trivially_relocatable<NTRXMO>::value && !std::is_nothrow_move_constructible<NTRXMO>::value &&
+                  !std::is_copy_constructible<NTRXMO>::value && std::is_move_constructible<NTRXMO>::value,
+              "NTRXMO");
+static_assert(std::is_trivially_default_constructible<TDCA>::value && !std::is_trivial<TDCA>::value &&
+                  !std::is_trivially_copyable<TDCA>::value && !amc::is_trivially_relocatable<TDCA>::value,
+              "TDCA");
 
 // ---- uniform access -----------------------------------------------------------------------------------------------
 // name(); tracked (has a ledger); val/moved of a live object; alive(p): does the ledger know a live object at p;
@@ -160,6 +236,19 @@ struct Tr<NTR> : TrAddr<NTR> {
 template <>
 struct Tr<NTRX> : TrAddr<NTRX> {
   static const char *name() { return "NTRX"; }
+};
+template <>
+struct Tr<NTRXMO> : TrAddr<NTRXMO> {
+  static const char *name() { return "NTRXMO"; }
+};
+template <>
+struct Tr<TDCA> {
+  static const bool tracked = false;
+  static const char *name() { return "TDCA"; }
+  static int val(const TDCA &e) { return e.v ^ (e.w << 16); }  // 0 exactly when both members are zero
+  static int moved(const TDCA &) { return 0; }
+  static bool alive(const TDCA *) { return true; }
+  static int id(const TDCA *) { return -1; }
 };
 template <>
 struct Tr<TR> {
